@@ -80,9 +80,23 @@ def make_cmps(policy):
     return out
 
 
-def lib_regex(patterns):
-    """library-level patterns: anchored and grouped so 'matches' is unambiguous (full match)"""
-    return [re.compile(rf"^(?:{p})$") for p in patterns]
+RE_FLAGS = {"i": re.IGNORECASE, "x": re.VERBOSE, "s": re.DOTALL, "a": re.ASCII}
+
+
+def re_flags(letters):
+    f = 0
+    for ch in letters or "":
+        f |= RE_FLAGS[ch]
+    return f
+
+
+def lib_regex(patterns, flags=""):
+    """library-level patterns: anchored and grouped so 'matches' is unambiguous (full match); the library accepts compiled patterns,
+    which carry their own flags (re.I, re.X, ...)"""
+    if "x" in (flags or ""):
+        # verbose spelling: layout white space and a comment that mean nothing under re.X and everything without it
+        return [re.compile(rf"^(?: {p} )$  # dict keys", re_flags(flags)) for p in patterns]
+    return [re.compile(rf"^(?:{p})$", re_flags(flags)) for p in patterns]
 
 
 def generator_kwargs(opts):
@@ -114,7 +128,7 @@ def infer(models, opts, pre_merge_hook=None, shared=None):
         run.str_registry = make_str_registry(opts.get("registry", ["IntString", "FloatString", "BooleanString"]))
         run.generator = MetadataGenerator(
             str_types_registry=run.str_registry,
-            dict_keys_regex=lib_regex(opts.get("dkr") or []) or None,
+            dict_keys_regex=lib_regex(opts.get("dkr") or [], opts.get("dkr_flags")) or None,
             dict_keys_fields=list(opts.get("dkf") or []) or None,
         )
     run.registry = ModelRegistry(*make_cmps(opts.get("merge") or []))
